@@ -904,10 +904,14 @@ func Formals(argSymbols ...string) *LVal {
 	return s
 }
 
-func markTailRec(npop int, fun *LVal, args *LVal) *LVal {
+func markTailRec(npop int, fun *LVal, args *LVal, loc *token.Location) *LVal {
 	return &LVal{
 		Type:  LMarkTailRec,
 		Cells: []*LVal{Int(npop), Int(npop), fun, args},
+		// The position of the tail call itself.  The frame that re-enters the
+		// call locates an error of the call (a rejected argument list) here,
+		// not at the call that opened the loop.
+		source: loc,
 	}
 }
 
